@@ -52,4 +52,30 @@ def structural(find_def):
                 and str(k.func.value.value).endswith(".{node_name}")
             detail = ("every collected definition is keyed by its own name: key = '...{node_name}'.format(..., node_name=%s.name), value = %s" % (v.id, v.id)) if ok else \
                 "the key of a collected definition no longer ends in the definition's own name (node_name=%s)" % (ast.unparse(kw["node_name"]) if "node_name" in kw else "?")
-    return [("get_module_contents/symbol-keyed-by-its-own-name", ok, detail)]
+    out = [("get_module_contents/symbol-keyed-by-its-own-name", ok, detail)]
+    # emit_file_on_hierarchy: a symbol is written only when the target file does not define it yet -- whatever the emit kind.
+    # For a package that is not installed below site-packages the target file IS the source file (relative_filename returns
+    # the absolute path), so this test is what keeps a real run from rewriting the source package.
+    f = find_def("cdd.compound.exmod_utils", "emit_file_on_hierarchy")
+    ok2, detail2 = None, "emit_file_on_hierarchy not found"
+    if f is not None:
+        par = {}
+        for n in ast.walk(f):
+            for ch in ast.iter_child_nodes(n):
+                par[id(ch)] = n
+        calls = [n for n in ast.walk(f) if isinstance(n, ast.Call) and isinstance(n.func, ast.Name) and n.func.id == "_emit_symbol"]
+        stores = [n for n in ast.walk(f) if isinstance(n, (ast.Assign, ast.AnnAssign)) and ast.unparse(n.targets[0] if isinstance(n, ast.Assign) else n.target) == "symbol_in_file"]
+        want = {"path.isfile(emit_filename)", "any(filter(partial(eq, name), map(attrgetter('name'), filter(rpartial(hasattr, 'name'), existent_mod.body))))"}
+        guarded = False
+        if len(calls) == 1:
+            up = par.get(id(calls[0]))
+            while up is not None and not isinstance(up, ast.If):
+                up = par.get(id(up))
+            if isinstance(up, ast.If):
+                conj = up.test.values if isinstance(up.test, ast.BoolOp) and isinstance(up.test.op, ast.And) else [up.test]
+                guarded = any(ast.unparse(c) == "not symbol_in_file" for c in conj) and any(calls[0] in list(ast.walk(b)) for b in up.body)
+        ok2 = len(calls) == 1 and guarded and bool(stores) and all(n.value is not None and ast.unparse(n.value) in want for n in stores)
+        detail2 = ("_emit_symbol is called once, under `not symbol_in_file`, and symbol_in_file is path.isfile(emit_filename) refined by: some top-level definition of the existing file has .name == name (any emit kind)" if ok2
+                   else "emit guard: %d call(s) of _emit_symbol, under `not symbol_in_file`: %s; symbol_in_file is assigned from %s" % (len(calls), guarded, [ast.unparse(n.value)[:90] if n.value is not None else "?" for n in stores]))
+    out.append(("emit_file_on_hierarchy/emit-only-when-the-file-lacks-the-symbol", ok2, detail2))
+    return out
